@@ -54,7 +54,11 @@ try:
             for l in lines:
                 if l.startswith('HARNESS'):
                     say('   ', l[:260])
-        # found-* replay files of a seeded run are not findings
+        # found-* replay files of a seeded run are not findings (the driver may write more of them than it prints)
+        import glob
+        for f in glob.glob(os.path.join('/verif/replays', pid.lower(), 'found-*')):
+            if os.path.getmtime(f) >= t - 1:
+                os.remove(f)
         for l in viol:
             f = l.split('replay=')[-1].strip()
             if os.path.basename(f).startswith('found-') and os.path.exists(f):
